@@ -26,6 +26,7 @@ type Interp struct {
 	obs []Obs
 	// call stack (function names) for diagnostics
 	stack []*ssa.Function
+	sites []ssa.Instruction
 }
 
 type Obs struct {
@@ -76,7 +77,31 @@ func (in *Interp) unsupported(format string, args ...interface{}) {
 
 func (in *Interp) goPanic(site ssa.Instruction, format string, args ...interface{}) {
 	msg := fmt.Sprintf(format, args...)
-	panic(&targetPanic{val: msg, msg: msg, site: in.siteStr(site)})
+	panic(&targetPanic{val: msg, msg: msg, site: in.siteStr(site) + in.callers()})
+}
+
+// callers renders the innermost call sites leading to the current frame.
+func (in *Interp) callers() string {
+	s := ""
+	n := 0
+	for i := len(in.sites) - 1; i >= 0 && n < 4; i-- {
+		if in.sites[i] == nil {
+			continue
+		}
+		s += " <- " + in.siteStr(in.sites[i])
+		n++
+	}
+	return s
+}
+
+// shortSite renders "file.go:line".
+func (in *Interp) shortSite(instr ssa.Instruction) string {
+	pos := in.P.Fset.Position(instr.Pos())
+	file := pos.Filename
+	if i := strings.LastIndex(file, "/"); i >= 0 {
+		file = file[i+1:]
+	}
+	return fmt.Sprintf("%s:%d", file, pos.Line)
 }
 
 func (in *Interp) siteStr(instr ssa.Instruction) string {
@@ -239,10 +264,12 @@ func (in *Interp) callSSA(caller *frame, site ssa.Instruction, fn *ssa.Function,
 		panic(&runAbort{kind: "unwind", msg: "call depth exceeded in " + fn.String()})
 	}
 	in.stack = append(in.stack, fn)
+	in.sites = append(in.sites, site)
 	in.run.noteFunction(fn)
 	defer func() {
 		in.depth--
 		in.stack = in.stack[:len(in.stack)-1]
+		in.sites = in.sites[:len(in.sites)-1]
 	}()
 	fr := &frame{in: in, fn: fn, caller: caller, freeVars: env}
 	fr.env = make(map[ssa.Value]Value, 16)
@@ -437,7 +464,7 @@ func (fr *frame) visit(instr ssa.Instruction) cont {
 				msg = "panic(" + typeName(iv.T) + ")"
 			}
 		}
-		panic(&targetPanic{val: v, msg: msg, site: in.siteStr(instr)})
+		panic(&targetPanic{val: v, msg: msg, site: in.siteStr(instr) + in.callers()})
 	case *ssa.Store:
 		addr := fr.get(instr.Addr).(Ptr)
 		if addr == nil {
